@@ -11,8 +11,8 @@ Open Scope Z_scope.
 (* ===== RSASSA-PKCS1-v1_5 ======================================================== *)
 
 (* verify() accepts a signature iff the public operation (length = modulus length, value < n)
-   yields exactly one of the canonical encodings 00 01 FF..FF 00 DigestInfo for this hash and
-   data: one encoding per hash, two for SHA-1 (with and without the NULL parameter), the bare
+   yields exactly one of the canonical encodings 00 01 FF..FF 00 DigestInfo (>= 8 bytes of FF) for
+   this hash and data: one encoding per hash, two for SHA-1 (with and without the NULL parameter), the bare
    data for hashAlg=None (TLS <= 1.1).  For every hash oracle, key, signature and data. *)
 Theorem pkcs1_verify_iff_canonical :
   forall (hash : list Z -> list Z) hLen n e sig data hashAlg sLen,
@@ -64,24 +64,29 @@ Theorem pkcs1_sign_verifies :
     (forall x, 0 <= x < rk_p k -> x ^ rk_dP k mod rk_p k = x ^ rk_d k mod rk_p k) ->
     (forall x, 0 <= x < rk_q k -> x ^ rk_dQ k mod rk_q k = x ^ rk_d k mod rk_q k) ->
     forall b, blind_inv k b ->
-    forall (hash : list Z -> list Z) hLen data hashAlg salt sLen,
-      all_bytes data = true ->
-      (forall T, In (canonical_em (numBytes (rk_n k)) T) (accepted_encodings (numBytes (rk_n k)) hashAlg data) ->
-                 zlen T + 3 <= numBytes (rk_n k)) ->
-      accepted_encodings (numBytes (rk_n k)) hashAlg data <> [] ->
+    forall (hash : list Z -> list Z) hLen data hashAlg salt sLen T,
+      all_bytes data = true -> signed_block hashAlg data = Some T -> zlen T + 11 <= numBytes (rk_n k) ->
       exists sig, rsa_sign hash hLen (rk_n k) (crt_priv k b) data PadPkcs1 hashAlg salt = Ok sig /\
                   rsa_verify hash hLen false (rk_n k) (rk_e k) sig data PadPkcs1 hashAlg sLen = Ok true.
 Proof. exact pkcs1_sign_verifies_crt. Qed.
 
-(* FULL statement that does NOT hold: "every encoding sign() emits / verify() accepts is an RFC 8017
-   EMSA-PKCS1-v1_5 encoding".  Refuted: with a 304-bit modulus and an MD5 DigestInfo the padding
-   string has one byte (the RFC demands >= 8 and refuses to encode). *)
-Theorem pkcs1_min_padding_refuted :
-  let n := rk_n small_key in
-  rfc8017_em (numBytes n) ([48; 32; 48; 12; 6; 8; 42; 134; 72; 134; 247; 13; 2; 5; 5; 0; 4; 16] ++ small_digest) = None /\
-  exists sig, rsa_sign (fun x => x) 0 n (plain_priv small_key) small_digest PadPkcs1 (Some "md5"%string) [] = Ok sig /\
-              rsa_verify (fun x => x) 0 false n (rk_e small_key) sig small_digest PadPkcs1 (Some "md5"%string) 0 = Ok true.
-Proof. exact pkcs1_short_padding_witness. Qed.
+(* every block verify() accepts is an RFC 8017 EMSA-PKCS1-v1_5 encoding (padding string >= 8
+   bytes), sign() emits nothing else, and refuses when the modulus is too short.
+   Before /repo 693c302 this statement was FALSE (theorem pkcs1_min_padding_refuted: 304-bit
+   modulus + MD5 DigestInfo => one byte of padding signed and accepted); the former witness is
+   now refused (Example below). *)
+Theorem pkcs1_min_padding :
+  forall (hash : list Z -> list Z) hLen n e (priv : Z -> Z) sig data hashAlg sLen salt,
+    (rsa_verify hash hLen false n e sig data PadPkcs1 hashAlg sLen = Ok true ->
+     exists c T, raw_public_key_op_bytes n e sig = Ok c /\ rfc8017_em (numBytes n) T = Some c) /\
+    (rsa_sign hash hLen n priv data PadPkcs1 hashAlg salt = Ok sig ->
+     exists T, signed_block hashAlg data = Some T /\ zlen T + 11 <= numBytes n) /\
+    (forall T, numBytes n < zlen T + 11 -> raw_pkcs1_sign n priv T = Err ValueError).
+Proof. exact pkcs1_min_padding_holds. Qed.
+
+Example pkcs1_former_short_padding_witness_refused :
+  rsa_sign (fun x => x) 0 (rk_n small_key) (plain_priv small_key) small_digest PadPkcs1 (Some "md5"%string) [] = Err ValueError.
+Proof. exact small_key_now_refused. Qed.
 
 (* ===== private operation: CRT and blinding ====================================== *)
 Theorem crt_blinded_correct :
@@ -120,9 +125,9 @@ Theorem pss_verify_checks_all :
     EMSA_PSS_verify hash hLen mHash EM emBits sLen = Ok true <-> pss_checks hash hLen mHash EM emBits sLen.
 Proof. exact pss_verify_iff. Qed.
 
-(* a PSS signature made with the blinded CRT private operation verifies, for every valid key
-   whose bit length is not 1 modulo 8, every hash oracle with fixed output length, every message
-   hash and EVERY salt (of any length that fits); and signing then succeeds *)
+(* a PSS signature made with the blinded CRT private operation verifies, for EVERY valid key
+   (any modulus size: since /repo cc7bf57 also 8k+1 bits), every hash oracle with fixed output
+   length, every message hash and EVERY salt; and signing succeeds whenever hash and salt fit *)
 Theorem pss_sign_verifies :
   forall k, crt_shape_ok k = true ->
     (forall x, 0 <= x < rk_n k -> (x ^ rk_e k) ^ rk_d k mod rk_n k = x) ->
@@ -131,11 +136,11 @@ Theorem pss_sign_verifies :
     forall b, blind_inv k b ->
     forall (hash : list Z -> list Z) hLen,
       0 < hLen -> (forall m, zlen (hash m) = hLen) -> (forall m, all_bytes (hash m) = true) ->
-      numBits (rk_n k) mod 8 <> 1 -> numBytes (rk_n k) <= 2 ^ 32 ->
+      numBytes (rk_n k) <= 2 ^ 32 ->
       forall mHash salt, all_bytes salt = true ->
         (forall S, RSASSA_PSS_sign hash hLen (rk_n k) (crt_priv k b) mHash salt = Ok S ->
                    RSASSA_PSS_verify hash hLen (rk_n k) (rk_e k) mHash S (zlen salt) = Ok true) /\
-        (hLen + zlen salt + 2 <= numBytes (rk_n k) ->
+        (hLen + zlen salt + 2 <= divceil (numBits (rk_n k) - 1) 8 ->
          exists S, RSASSA_PSS_sign hash hLen (rk_n k) (crt_priv k b) mHash salt = Ok S).
 Proof. exact pss_sign_verifies_crt. Qed.
 
@@ -150,21 +155,13 @@ Theorem pss_encode_verifies :
       EMSA_PSS_verify hash hLen mHash EM emBits (zlen salt) = Ok true.
 Proof. exact pss_encode_then_verify. Qed.
 
-(* FULL statement "pss signing works for every valid key size" does NOT hold: when the modulus has
-   8k+1 bits, EM has k bytes but _raw_private_key_op_bytes insists on k+1: signing always fails
-   (and, symmetrically, verification mis-slices valid signatures).  General form and a witness. *)
-Theorem pss_sign_fails_when_modbits_1_mod_8 :
-  forall (hash : list Z -> list Z) hLen,
-    0 < hLen -> (forall m, zlen (hash m) = hLen) -> (forall m, all_bytes (hash m) = true) ->
-    forall n (priv : Z -> Z), 0 < n -> numBytes n <= 2 ^ 32 ->
-    forall mHash salt, numBits n mod 8 = 1 -> 2 <= numBits n -> all_bytes salt = true ->
-      exists x, RSASSA_PSS_sign hash hLen n priv mHash salt = Err x.
-Proof. exact pss_sign_fails_modbits_1_mod_8. Qed.
-
-Theorem pss_sign_fails_modbits_1_mod_8_refuted :
-  numBits n65 = 65 /\ 4 + 0 + 2 <= numBytes n65 - 1 /\
-  forall (priv : Z -> Z) mHash, exists x, RSASSA_PSS_sign (toy_mac [1] 4) 4 n65 priv mHash [] = Err x.
-Proof. exact pss_sign_total_witness. Qed.
+(* Before /repo cc7bf57 signing failed for every modulus of 8k+1 bits (theorems
+   pss_sign_fails_when_modbits_1_mod_8, pss_sign_fails_modbits_1_mod_8_refuted).  The former witness
+   (65-bit modulus, 4-byte toy hash) now signs, for every private operation and message hash. *)
+Example pss_sign_works_for_modbits_1_mod_8 :
+  numBits n65 = 65 /\ numBits n65 mod 8 = 1 /\
+  forall (priv : Z -> Z) mHash, exists S, RSASSA_PSS_sign (toy_mac [1] 4) 4 n65 priv mHash [] = Ok S.
+Proof. exact pss_sign_works_for_n65. Qed.
 
 (* ===== DSA (python_dsakey.py, integer level) ==================================== *)
 (* a signature (r, s) made by sign() with ANY nonce k invertible mod q verifies, provided g has
@@ -182,9 +179,32 @@ Theorem dsa_verify_rejects_out_of_range :
     dsa_verify key r s data w = false.
 Proof. exact dsa_verify_range. Qed.
 
-(* FULL statement without the group hypothesis is false -- and Python_DSAKey.generate() produces
-   exactly such parameters (q does not divide p-1): finding 3, replayed on the code by the harness *)
-Theorem dsa_sign_verifies_without_group_hypothesis_refuted :
+(* Python_DSAKey.generate(): p = 2kq+1, g = index^((p-1)//q): the group hypothesis holds for every
+   generated key (given Fermat for the index, i.e. p prime), hence every signature made with a
+   generated key verifies.  Before /repo b7d3c31 generate_qp() produced q not dividing p-1 and the
+   statement was false (theorem dsa_sign_verifies_without_group_hypothesis_refuted); the necessity of
+   the hypothesis is kept as an Example. *)
+Theorem dsa_generate_establishes_group_hypothesis :
+  forall q k index x, 1 < q -> 0 < k -> index ^ (dsa_gen_p q k - 1) mod dsa_gen_p q k = 1 ->
+    let key := dsa_gen_key q k index x in
+    (dk_p key - 1) mod dk_q key = 0 /\ 1 < dk_p key /\
+    dk_g key ^ dk_q key mod dk_p key = 1 /\
+    dk_y key = powmod (dk_g key) (dk_x key) (dk_p key).
+Proof. exact dsa_generate_group. Qed.
+
+Theorem dsa_generated_key_signatures_verify :
+  forall q k index x, 1 < q -> 0 < k -> 0 <= x -> index ^ (dsa_gen_p q k - 1) mod dsa_gen_p q k = 1 ->
+    let key := dsa_gen_key q k index x in
+    forall data nonce ninv w, 0 <= nonce -> (nonce * ninv) mod dk_q key = 1 ->
+      let '(r, s) := dsa_sign key data nonce ninv in
+      (s * w) mod dk_q key = 1 -> 0 < r -> 0 < s -> dsa_verify key r s data w = true.
+Proof. exact dsa_generated_key_sign_verifies. Qed.
+
+Example dsa_generate_hypothesis_instance :
+  2 ^ (dsa_gen_p 101 3 - 1) mod dsa_gen_p 101 3 = 1 /\ dsa_gen_key 101 3 2 57 = toy_dsa.
+Proof. exact dsa_generate_instance. Qed.
+
+Example dsa_group_hypothesis_is_necessary :
   (dk_p bad_dsa - 1) mod dk_q bad_dsa <> 0 /\
   exists data k kinv w,
     0 <= k /\ (k * kinv) mod dk_q bad_dsa = 1 /\
@@ -258,7 +278,5 @@ Proof. exact sites_as_modelled. Qed.
 Theorem modelled_sources_unchanged : src_fingerprints = expected_fingerprints.
 Proof. exact sources_unchanged. Qed.
 
-Theorem internal_error_not_alerted_only_in :
-  unhandled_callers = [("makeServerKeyExchange", "_serverSRPKeyExchange");
-                       ("makeServerKeyExchange", "_serverAnonKeyExchange")]%string.
+Theorem internal_error_always_alerted : unhandled_callers = [].
 Proof. exact unhandled_callers_are. Qed.
